@@ -32,7 +32,7 @@ PROPS["C02"] = {
     "level_text": "Theorems (Props/C02.v) over the Gallina model of message.go: validate m = VOk <-> wf_frame m for every byte string, no out-of-bounds index, every single-byte corruption of a well-formed frame rejected, accessors in bounds, rendering total - general proofs by case analysis and modular arithmetic, no bound on length. The model is tied to the compiled code by bounded-exhaustive (protocol alphabet) and random differential correspondence at both slice capacities, and the client clause by stream-level correspondence.",
     "level_note": "Trusted: Coq kernel, hand-written model of message.go (validated by correspondence, not generated), Go slice model, harness. No axioms. For Message.Validate, Checksum and the accessors: Tie T (Tie/BytesAgree.v): the function as REGENERATED statement by statement from the Go source on every run (Gen/Bytes.v, every index/slice a possible panic) is proved equal to the hand-written model on every input, so the theorems speak about the current source; the correspondence runs then only validate the translator and the slice-capacity abstraction.",
     "technique": "Rocq proof over hand-written Gallina model + exhaustive/differential correspondence (vm_compute)",
-    "tie_files": ["Tie/ClientAgree.v", "Tie/BytesAgree.v"],
+    "tie_files": ["Tie/ClientScannerOk.v", "Tie/ClientAgree.v", "Tie/BytesAgree.v"],
     "props_file": "Props/C02.v",
     "eval_modules": ["Run.EvalFrame", "Run.EvalClient"],
     "imports": ["XS.Lib.Bufio", "XS.Spec.ClientOps"],
@@ -50,10 +50,12 @@ PROPS["C06"] = {
     "level_text": "Theorems (Props/C06.v): for every identifier and every payload of 0..2048 bytes new_message yields a wf_frame that validate accepts, whose accessors read back identifier/length/payload, extended exactly from 255 bytes, zero checksum, and which the reference segmentation (to which C01 reduces every read fragmentation) delivers unchanged; is_error/error_code characterised on every accepted frame. General proofs. Correspondence: every payload length 0..2048 (thorough; quick: every length to 300 then every 9th) and all 256 error codes against NewMessage/Validate/bufio.Scanner.",
     "level_note": "Trusted: Coq kernel, hand-written model of NewMessage (validated by correspondence), harness. No axioms. For Message.Validate and ScanMessages: Tie T (Tie/BytesAgree.v): the function as REGENERATED statement by statement from the Go source on every run (Gen/Bytes.v, every index/slice a possible panic) is proved equal to the hand-written model on every input, so the theorems speak about the current source; the correspondence runs then only validate the translator and the slice-capacity abstraction.",
     "technique": "Rocq proof over hand-written Gallina model + exhaustive-by-length correspondence (vm_compute)",
-    "tie_files": ["Tie/BytesAgree.v"],
+    "tie_files": ["Tie/ClientAgree.v", "Tie/ClientScannerOk.v", "Tie/BytesAgree.v"],
     "props_file": "Props/C06.v",
-    "eval_module": "Run.EvalFrame",
-    "kinds": {"newmsg": {"type": "case_newmsg", "chk": "chk_newmsg", "sig": "sig_newmsg", "scope": "N_scope"}},
+    "eval_modules": ["Run.EvalFrame", "Run.EvalClient"],
+    "imports": ["XS.Lib.Bufio", "XS.Spec.ClientOps"],
+    "kinds": {"newmsg": {"type": "case_newmsg", "chk": "chk_newmsg", "sig": "sig_newmsg", "scope": "N_scope"},
+              "client": {"type": "case_client", "chk": "chk_client", "sig": "sig_client", "scope": "N_scope"}},
     "rule": "NewMessage(mid, payload): boundary lengths x identifiers, every length (see tier), adversarial content (FA FF runs, embedded frames), all 256 error codes; observable = frame bytes, Validate verdict, tokens a real bufio.Scanner(ScanMessages) delivers under several read fragmentations (whole, byte by byte, one cut at each of the first 7 positions and before the checksum, a cut with an empty read, the frame twice with the second header split after its preamble), all accessors; non-trivial = payload non-empty / boundary length class / error identifier / contains FA; distinct = distinct case terms",
     "trusted": FRAME_TRUSTED,
     "assumptions": ["payload length < 65536 (the property quantifies over 0..2048)"],
@@ -83,7 +85,7 @@ PROPS["C01"] = {
     "level_text": "Theorems (Props/C01.v), no bound on stream length, number of frames or schedule: (1) a stream of well-formed frames separated by pair-free noise has exactly those frames as its reference segmentation (induction over the frame list); (2) for every byte stream, every schedule of read sizes >= 0 with at most 100 consecutive empty reads, every terminal error and both (n, err) conventions, the statement-level model of bufio.Scanner.Scan composed with the model of ScanMessages delivers exactly the reference segmentation then the terminal error (induction on fuel with the buffer-geometry invariant), hence any two schedules agree. Models tied to ScanMessages and to the real bufio.Scanner by alphabet-exhaustive streams x all partitions and random streams x schedule families.",
     "level_note": "Trusted: Coq kernel; hand-written models of ScanMessages and of bufio.Scanner.Scan + chunking reader (validated by correspondence on every run); harness. No axioms. The error-with-data convention is proved when the reference segmentation does not end in TooLong (K1 shape). For the split function ScanMessages: Tie T (Tie/BytesAgree.v): the function as REGENERATED statement by statement from the Go source on every run (Gen/Bytes.v, every index/slice a possible panic) is proved equal to the hand-written model on every input, so the theorems speak about the current source; the correspondence runs then only validate the translator and the slice-capacity abstraction.",
     "technique": "Rocq proof by induction (fuel, geometry invariant) over Gallina models of ScanMessages and bufio.Scanner + exhaustive-partition/differential correspondence",
-    "tie_files": ["Tie/BytesAgree.v"],
+    "tie_files": ["Tie/ClientScannerOk.v", "Tie/BytesAgree.v"],
     "props_file": "Props/C01.v",
     "eval_modules": ["Run.EvalStream", "Run.EvalClient"],
     "imports": ["XS.Lib.Bufio", "XS.Spec.ClientOps"],
@@ -101,6 +103,7 @@ PROPS["C13"] = {
     "level_text": "Theorems (Props/C13.v), for every payload and every destination (contents, length, capacity): the decoded configuration is map decode_group over the complete 4-byte groups (hence independent of the destination and of any history of earlier decodes into it - stated over arbitrary decode sequences), encode-after-decode clears only reserved identifier bits, decode-after-encode is the identity on in-range configurations. The identifier conversion inside the model is the SetUint16/Uint16 regenerated from source. Correspondence: payloads 0..512 bytes x prior destinations (nil, shorter, longer, spare capacity, junk-filled, aliased) x decode sequences, with the backing array's contents recorded before every call.",
     "level_note": "Trusted: Coq kernel, hand-written model of OutputConfiguration.Unmarshal/Marshal (validated by correspondence), translator for SetUint16/Uint16, Go slice/append model (destination = backing contents up to capacity), harness. No axioms.",
     "technique": "Rocq proof (induction over groups / decode sequences) over Gallina model using translator-generated identifier functions + differential correspondence",
+    "tie_files": ["Tie/EmulatorScannerOk.v", "Tie/ConfAgree.v"],
     "props_file": "Props/C13.v",
     "eval_module": "Run.EvalConfig",
     "kinds": {
@@ -117,7 +120,7 @@ PROPS["C14"] = {
     "level_note": "Trusted: Coq kernel, hand-written decoder models (validated by correspondence), translator (command table), strings.TrimSpace modelled on ASCII input only, harness. No axioms. Tie T for the client's stateful core (Tie/ClientAgree.v): Client.Receive and Client.ScanMeasurementData as REGENERATED statement by statement from client.go on every run (Gen/ClientFns.v) are proved to agree with the model's receive / scan_md for every client state and every scanner step; the scanner step itself is the bufio model of C01.",
     "technique": "Rocq proof over Gallina decoder models + translator-generated command table + differential correspondence through Client.Get*",
     "props_file": "Props/C14.v",
-    "tie_files": ["Tie/BytesAgree.v", "Tie/ClientAgree.v", "Tie/CommandsAgree.v"],
+    "tie_files": ["Tie/ClientScannerOk.v", "Tie/ConfAgree.v", "Tie/BytesAgree.v", "Tie/ClientAgree.v", "Tie/CommandsAgree.v"],
     "eval_module": "Run.EvalConfig",
     "kinds": {"query": {"type": "case_query", "chk": "chk_query", "sig": "sig_query", "scope": "N_scope"}},
     "rule": "each of the six Get* commands run on a real client whose port delivers an unrelated frame then the acknowledge with the given payload: every length 0..24 (3 contents each below 10), every 8th length to 248, 250..254, one extended-length payload; product code payloads are printable ASCII padded with all six ASCII whitespace characters; a returned value together with an error counts as a panic-class failure. non-trivial = non-empty payload; distinct = distinct case terms",
@@ -153,7 +156,7 @@ PROPS["C03"] = {
     "level_text": "Theorem client_refines_spec (Props/C03.v): for every stream, read schedule (empty reads included), error convention and operation sequence, the model client - client.go rendered statement by statement over the bufio.Scanner model, with the dispatch table and size function regenerated from source - returns what the abstract client over the reference segmentation returns wherever the latter is defined (API protocol respected). On the abstract client: scan steps visit exactly the packets of the current measurement payload, once each, in wire order, true exactly for supported complete packets, then false for ever; at most |payload|/3 steps; after any receive no packet is current and everything scanned later belongs to the frame just delivered. Proof by a simulation relation preserved by every operation. Values: checked by the correspondence against a fresh decoding by the same Go type.",
     "level_note": CLIENT_LEVEL_NOTE + " Tie T for the client's stateful core (Tie/ClientAgree.v): Client.Receive and Client.ScanMeasurementData as REGENERATED statement by statement from client.go on every run (Gen/ClientFns.v) are proved to agree with the model's receive / scan_md for every client state and every scanner step; the scanner step itself is the bufio model of C01.",
     "technique": "Rocq refinement proof (simulation relation, induction over operation sequences) + differential correspondence on call sequences",
-    "tie_files": ["Tie/FixedAgree.v", "Tie/BytesAgree.v", "Tie/ClientAgree.v"],
+    "tie_files": ["Tie/ClientScannerOk.v", "Tie/FixedAgree.v", "Tie/BytesAgree.v", "Tie/ClientAgree.v"],
     "props_file": "Props/C03.v",
     "eval_modules": ["Run.EvalClient"],
     "imports": ["XS.Lib.Bufio", "XS.Spec.ClientOps"],
@@ -167,7 +170,7 @@ PROPS["C08"] = {
     "level_note": CLIENT_LEVEL_NOTE + " Tie T for the client's stateful core (Tie/ClientAgree.v): Client.Receive and Client.ScanMeasurementData as REGENERATED statement by statement from client.go on every run (Gen/ClientFns.v) are proved to agree with the model's receive / scan_md for every client state and every scanner step; the scanner step itself is the bufio model of C01.",
     "technique": "Rocq refinement proof + translator-generated command table + differential correspondence on command sequences",
     "props_file": "Props/C08.v",
-    "tie_files": ["Tie/BytesAgree.v", "Tie/ClientAgree.v", "Tie/CommandsAgree.v"],
+    "tie_files": ["Tie/ClientScannerOk.v", "Tie/ConfAgree.v", "Tie/BytesAgree.v", "Tie/ClientAgree.v", "Tie/CommandsAgree.v"],
     "eval_modules": ["Run.EvalClient"],
     "imports": ["XS.Lib.Bufio", "XS.Spec.ClientOps"],
     "kinds": {"client": CLIENT_KIND},
@@ -179,7 +182,7 @@ PROPS["C09"] = {
     "level_text": "Theorems (Props/C09.v): for every byte stream, read schedule and error convention, every observation the API protocol allows is a value, never a panic (client_refines_spec + the abstract client never asks for a panic); all model functions are total Gallina functions with explicit fuel and the fuel is shown sufficient (scan: mu+2, receive-until: pending+unread+2), so every call returns; at most |stream|/5 frames are delivered and at most |payload|/3 scan steps report a packet; every exported decoder model is total (never OOB/Panic). Partial: a port whose Read blocks for ever is outside any executable model.",
     "level_note": CLIENT_LEVEL_NOTE + " Runtime share not modelled: blocking reads.",
     "technique": "Rocq refinement proof + totality lemmas + differential correspondence on arbitrary / mutated streams",
-    "tie_files": ["Tie/BytesAgree.v", "Tie/ClientAgree.v"],
+    "tie_files": ["Tie/ClientScannerOk.v", "Tie/ConfAgree.v", "Tie/BytesAgree.v", "Tie/ClientAgree.v"],
     "props_file": "Props/C09.v",
     "eval_modules": ["Run.EvalClient", "Run.EvalConfig"],
     "imports": ["XS.Lib.Bufio", "XS.Spec.ClientOps"],
@@ -193,7 +196,7 @@ PROPS["C10"] = {
     "level_text": "Theorems (Props/C10.v): client_refines_spec for every prefix, failure point, error value, (n, err) convention (error with the last data or by its own read, 0-byte reads before it) and fragmentation; on the abstract client the receives deliver every complete frame of the prefix in order (accepted or rejected), never the incomplete tail, then the terminal cause on that and every later receive - the port's error when the reference segmentation does not end in TooLong (io.EOF = orderly end); a rejected frame is one element of that list, frames after it are delivered. The strict statement is refuted by computation for the oversize-header shape (finding K1, known_findings.txt).",
     "level_note": CLIENT_LEVEL_NOTE + " Finding K1 is recorded, not repaired: the check reports it as KNOWN-FINDING and fails for any other violation.",
     "technique": "Rocq refinement proof + refutation witness by vm_compute + differential correspondence with failure injection at every offset",
-    "tie_files": ["Tie/BytesAgree.v", "Tie/ClientAgree.v"],
+    "tie_files": ["Tie/ClientScannerOk.v", "Tie/BytesAgree.v", "Tie/ClientAgree.v"],
     "props_file": "Props/C10.v",
     "eval_modules": ["Run.EvalClient"],
     "imports": ["XS.Lib.Bufio", "XS.Spec.ClientOps"],
@@ -243,7 +246,10 @@ PROPS["C05"] = {
     "tie_files": ["Tie/FixedAgree.v"],
     "props_file": "Props/C05.v",
     "eval_modules": ["Run.EvalCodec"],
+    "imports": ["XS.Run.EvalConfig"],
     "kinds": {
+        "codec": {"type": "case_codec", "chk": "chk_codec", "sig": "sig_codec", "scope": "N_scope"},
+        "enc": {"type": "case_enc", "chk": "chk_enc", "sig": "sig_enc", "scope": "N_scope"},
         "fp": {"type": "case_fp", "chk": "chk_fp", "sig": "sig_fp", "scope": "N_scope"},
         "fpenc": {"type": "case_fpenc", "chk": "chk_fpenc", "sig": "sig_fpenc", "scope": "N_scope"},
     },
@@ -292,7 +298,7 @@ PROPS["C16"] = {
     "level_text": "Theorems (Props/C16.v) over Model.Link - client (send / receiveUntil with the identifiers of the generated command table) and emulator receive loop (Model.Emulator.estep split into 'update state' and 'write acknowledge') as separately scheduled steps over two FIFO channels - for EVERY schedule, every command sequence of any length and every configuration of up to 512 in-range settings: each enabled step consumes exactly one of 4*|cmds| units and some step is always enabled while a command is outstanding (so every command completes, none fails); whenever the client is between commands the emulator's mode and configuration are those of exactly the commands that have returned; MarshalMessage refuses a type iff no setting has it and otherwise uses the identifier of the setting of that type; in the data phase received ++ in-flight = transmitted (order, no loss/duplication/merging), every frame validates, Transmit writes iff the last command was go-to-measurement; on the skeleton regenerated from emulator.go, no path of an iteration of Receive writes shared state after a port write; and a marshalled measurement of a configured type is decoded by the client as exactly one packet of the dispatched Go type holding the value at the configured precision (unchanged when representable). Correspondence: real client + real emulator over synchronous and buffered in-memory links, GOMAXPROCS 1..16.",
     "level_note": "Channels carry frames: byte-level fragmentation independence is C01's theorem and the client's command loop refinement is C08's; the composition with them is by statement, not by a single Coq theorem. Goroutine scheduling itself is not modelled beyond interleaving of the four step kinds; the real runs only see the schedules that happen. The decoded-value clause is C16_configured_measurement_arrives (Proofs/DataPathProofs.v): generated dispatch table and layouts for the finite part, the generic codec theorems (Flocq; four standard-library axioms of the reals) for the values.",
     "technique": "Rocq proof (invariant + measure by induction over every schedule of an interleaving model; reflective order check of a skeleton translated from the Go AST on every run) + differential correspondence of real client/emulator runs against the model's canonical schedule",
-    "tie_files": ["Tie/FixedAgree.v", "Tie/ClientAgree.v", "Tie/BytesAgree.v"],
+    "tie_files": ["Tie/EmulatorScannerOk.v", "Tie/ClientScannerOk.v", "Tie/ConfAgree.v", "Tie/FixedAgree.v", "Tie/ClientAgree.v", "Tie/BytesAgree.v"],
     "props_file": "Props/C16.v",
     "eval_modules": ["Run.EvalLink"],
     "imports": ["XS.Model.Link"],
@@ -320,7 +326,7 @@ PROPS["C18"] = {
     "level_text": "Theorems (Props/C18.v), by induction over every event history from any state: Transmit writes nothing and reports not-in-measurement-mode outside measurement mode, refuses a frame that is not wf_frame (C02) with the validation failure, writes a wf_frame exactly once unchanged; every event either sets the mode (go-to-measurement / send-mode switch: measuring; go-to-config / set-output-configuration: not) or leaves it, hence measuring <-> the most recent mode-affecting event is go-to-measurement or the switch; only well-formed frames ever reach the port. Correspondence: bounded-exhaustive histories over the seven event kinds plus random longer ones on a real emulator.",
     "level_note": EMU_NOTE,
     "technique": "Rocq proof (induction over event histories) over a Gallina state machine + bounded-exhaustive / random differential correspondence",
-    "tie_files": ["Tie/BytesAgree.v"],
+    "tie_files": ["Tie/EmulatorScannerOk.v", "Tie/ConfAgree.v", "Tie/BytesAgree.v"],
     "props_file": "Props/C18.v",
     "eval_modules": ["Run.EvalEmu"],
     "imports": ["XS.Model.Emulator"],
